@@ -93,13 +93,13 @@ Record Inv (s : state) : Prop := mkInv { i_core : Jcore None s; i_stab : Stab s;
 
 (* ---------- tactics ---------- *)
 Ltac ds s := destruct s as [grp mem gn ck sd ns nst rn stp sr dc0 rd hbr hbq gs ng sts tms nt nr cs nc ca esc scl td].
-Ltac prj := cbn [is_group member generation coord_known start_d n_start n_stop rejoin_needed stopping stop_requested
+Ltac prj := cbv beta iota zeta delta [is_group member generation coord_known start_d n_start n_stop rejoin_needed stopping stop_requested
                  dc rejoin_d hb_running hb_req gens next_gen stops timers next_timer next_rid consumers next_cid
                  cur_assign escaped stop_called tail_done
                  set_is_group set_member set_generation set_coord_known set_start_d set_n_start set_n_stop
                  set_rejoin_needed set_stopping set_stop_requested set_dc set_rejoin_d set_hb_running set_hb_req
                  set_gens set_next_gen set_stops set_timers set_next_timer set_next_rid set_consumers set_next_cid
-                 set_cur_assign set_escaped set_stop_called set_tail_done fst snd] in *.
+                 set_cur_assign set_escaped set_stop_called set_tail_done fst snd andb negb] in *.
 Ltac unf := repeat progress unfold gen_end, coord_retry, new_timer, remove_timer, add_gen, fresh_rid, seq, emit, emits, upd, skip in *.
 
 Lemma init_inv : forall grp, Inv (init grp).
@@ -112,7 +112,7 @@ Proof.
 Qed.
 
 Ltac jdes := match goal with H : Jcore _ _ |- _ => destruct H as [h1 h2 h3 h4 h5 h6 h7 h8 h9 h10 h12 h13 h11] end.
-Ltac fin := intuition (subst; auto; try congruence; try discriminate; try lia).
+Ltac fin := intuition (subst; auto with datatypes; try congruence; try discriminate; try lia).
 Tactic Notation "clr" ident(x) ident(a) ident(b) ident(c) :=
   try (tryif first [constr_eq x a | constr_eq x b | constr_eq x c] then idtac else clear x).
 Tactic Notation "keep" ident(a) ident(b) ident(c) :=
@@ -219,4 +219,26 @@ Proof.
     - exists s, []. auto. }
   destruct X as (s1 & o1 & -> & J1 & S1 & C1). clear H Hs H2.
   ds s1. prj. subst. destruct grp; destruct sd as [idx|]; unfold finish_stop; prj; (split; [|reflexivity]); jgo.
+Qed.
+
+Lemma coord_stop_J : forall r st s, Jcore r s -> consumers s = [] ->
+  let s' := fst (coord_stop st s) in
+  Jcore r s' /\ (start_d s <> None \/ stopping s = true -> stopping s' = true) /\
+  (start_d s = None -> stopping s = false -> same_core (if is_group s then set_stop_requested false s else s) s').
+Proof.
+  intros r st s H Hc. ds s. prj. subst cs.
+  destruct sd as [idx|].
+  2:{ destruct grp; unfold coord_stop, finish_stop; prj; (split; [jgo|split; [intros [X|X]; [congruence|exact X]|intros _ _; frame]]). }
+  destruct stp.
+  { destruct grp; unfold coord_stop, finish_stop; prj; (split; [jgo|split; [intros _; reflexivity|intros; congruence]]). }
+  assert (C2 : cnt has_s2 sts = 0%nat). { destruct H. prj. intuition congruence. }
+  destruct dc0 as [|id|].
+  3:{ destruct grp; unfold coord_stop, finish_stop; prj; (split; [jgo|split; [intros _; reflexivity|intros; congruence]]). }
+  all: destruct hbq as [rid|]; destruct hbr; destruct ck; destruct (mem =? 0) eqn:M;
+       unfold coord_stop, finish_stop, hb_stop, remove_timer; prj; rewrite ?M; prj.
+  all: try match goal with |- context [stop_tail ?st0 ?s0] =>
+         let X := fresh in assert (X : Jcore r s0) by jgo;
+         let Y := fresh in pose proof (stop_tail_J r st0 s0 eq_refl C2 X) as Y;
+         destruct (stop_tail st0 s0) as [s3 o4]; prj; destruct Y; split; [|split; [intros _|intros; congruence]]; assumption end.
+  all: (split; [|split; [intros _|intros; congruence]]; [jgo|reflexivity]).
 Qed.
